@@ -636,6 +636,21 @@ def gen_validation(ctx, cuqi, thorough):
         x = D.Cauchy(np.zeros(n), f, name="x")
         return D.Posterior(x.to_likelihood(b), gamma("s")), [("location", x.location), ("scale", f)]
     add("cauchy:scale", "other", mkCauchy, False, "other")
+    def mkCMRF():
+        f = lambda s: 1 / s
+        x = D.CMRF(0, f, geometry=n, name="x")
+        return D.Posterior(x.to_likelihood(b), gamma("s")), [("location", x.location), ("scale", f)]
+    add("cmrf:scale", "other", mkCMRF, False, "other")
+    def mkLogn():
+        f = lambda s: 1 / s
+        x = D.Lognormal(np.zeros(n), f, name="x")
+        return D.Posterior(x.to_likelihood(np.array([1.0, 0.5, 2.5])), gamma("s")), [("mean", x.mean), ("cov", f)]
+    add("lognormal:cov", "other", mkLogn, False, "other")
+    def mkUnif():
+        f = lambda s: 3 + 1 / s
+        x = D.Uniform(np.zeros(n), f, name="x")
+        return D.Posterior(x.to_likelihood(b), gamma("s")), [("low", x.low), ("high", f)]
+    add("uniform:high", "other", mkUnif, False, "other")
     # regularised presets
     for cons, reg in (("box", None), (None, "l1")):
         def mkBox(cons=cons, reg=reg):
@@ -694,7 +709,7 @@ def stream_validation(ctx, cuqi, thorough):
         tie_key = f"tie:validate:{iface}:{it['label']}"
         if impl != out:
             ctx.disagree(tie_key, desc, out, impl, "validator decision differs from the model's decision procedure")
-        if impl == "ok" and it["outside"]:
+        if impl == "ok" and (it["outside"] or it["fam"] in ("lmrf", "other")):
             structural_oracle(ctx, cuqi, it, iface, out, smp, target, tie_key, desc)
         if impl != "ok" or iface.startswith("approx") or it["fam"] in ("reg", "lmrf", "other"):
             continue
@@ -730,6 +745,181 @@ def stream_validation(ctx, cuqi, thorough):
             ctx.fail(key, desc, "unsupported dependence rejected, or drawn exactly",
                      {"accepted": True, "shape": shape, "rate": rate, "A": fit["A"], "B": fit["B"], "resid": fit["resid"], "g-g0": fit["g"]},
                      "a posterior outside the conjugate structure is accepted and sampled from a Gamma that is not proportional to it")
+    stream_reassign(ctx, cuqi, meta, outs)
+    stream_gibbs(ctx, cuqi)
+
+
+def gap_of(target, par, call):
+    """kernel gap of one captured scalar Gamma draw against target.logd; None when not evaluable"""
+    if call is None or len(call["shape"]) != 1:
+        return None
+    try:
+        shape, rate = float(call["shape"][0]), 1.0 / float(call["scale"][0])
+        fit = fit_gap(target, par, shape, rate)
+        if not fit["finite"]:
+            return None
+        const = not (abs(fit["A"]) > A_TOL or abs(fit["B"]) > b_tol(fit, rate) or fit["resid"] > RES_TOL * fit["mag"])
+        return {"shape": shape, "rate": rate, "A(log s)": fit["A"], "B(-s)": fit["B"], "resid": fit["resid"], "g-g0": fit["g"], "constant": const}
+    except Exception as e:
+        return {"target_logd": repr(e)[:80]}
+
+
+def stream_reassign(ctx, cuqi, meta, outs):
+    """ONE sampler instance: valid target -> unsupported target (every class of the validator stream) -> valid target.
+    The structural oracle runs after every assignment: an unsupported target must raise on assignment exactly as on
+    construction (its acceptance is the failing input, exhibited with the Gamma then drawn against the target kernel);
+    after the final valid assignment the Gamma drawn must be the one a fresh sampler draws for that target, and
+    proportional to it."""
+    D = cuqi.distribution
+    E = cuqi.experimental.mcmc
+    from cuqi.implicitprior import RegularizedGaussian
+    n = 3
+
+    def valid(kind, k):
+        data = np.array([1.0, 0.5 * k, 2.5 - k])
+        pri = D.Gamma(2.0 + k, 3.0, name="s")
+        if kind == "lmrf":
+            x = D.LMRF(0, lambda s: 1 / s, geometry=n, name="x")
+        elif kind == "reg":
+            x = RegularizedGaussian(np.zeros(n), cov=lambda s: 1 / s, constraint="nonnegativity", name="x")
+        elif kind == "gmrf":
+            x = D.GMRF(np.zeros(n), prec=lambda s: s, name="x")
+        else:
+            x = D.Gaussian(np.zeros(n), cov=lambda s: 1 / s, name="x")
+        return D.Posterior(x.to_likelihood(data), pri)
+
+    def params(calls):
+        return [(c["shape"].tolist(), (1.0 / c["scale"]).tolist()) for c in calls]
+
+    hist = ctx.extra_cov.setdefault("reassign", {})
+    for (it, iface, target), out in zip(meta, outs):
+        if iface not in ("exp", "approx") or out == "ok" or not it["is_post"]:
+            continue        # legacy samplers have no target setter (plain attribute); model-accepted targets: other streams
+        cls = it["outside"] or ("likelihood-family" if it["fam"] in ("lmrf", "other") and iface == "exp" else f"model:{out}")
+        if iface == "approx":
+            kind = "lmrf"
+        else:
+            kind = {"reg": "reg", "gmrf": "gmrf"}.get(it["fam"], "gauss")
+        cons = E.Conjugate if iface == "exp" else E.ConjugateApprox
+        desc = {"sampler": iface, "sequence": [f"valid:{kind}", it["label"], f"valid:{kind}"], "class": cls}
+        ctx.case(f"reassign-{iface}", desc)
+        key = f"reassign:{iface}:{it['label']}"
+        hist[f"{iface}:{cls.split(':')[0]}"] = hist.get(f"{iface}:{cls.split(':')[0]}", 0) + 1
+        try:
+            v1, v2 = valid(kind, 0), valid(kind, 1)
+            with Capture(cuqi) as cap, quiet():
+                smp = cons(v1)
+                smp.step()
+                fresh = cons(v2)
+                fresh.step()
+            ref = params(cap.calls[1:2])
+        except Exception as e:
+            ctx.disagree(key, desc, "valid targets accepted", repr(e)[:100], "a valid target was refused")
+            continue
+        # -- the unsupported assignment
+        accepted = True
+        try:
+            with quiet():
+                smp.target = target
+        except Exception as e:
+            accepted = False
+            if classify(e) != out:
+                ctx.disagree(key, desc, out, classify(e), "re-assignment is refused for another reason than construction")
+        if accepted:
+            got = {"accepted_on_reassignment": True, "class": cls, "prior_dim": int(getattr(target.prior, "dim", -1))}
+            try:
+                with Capture(cuqi) as cap, quiet():
+                    smp.step()
+                got["gamma_draws_in_one_step"] = len(cap.calls)
+                if cap.calls:
+                    got["drawn"] = params(cap.calls[:1])
+                    if iface == "exp" and got["prior_dim"] == 1:
+                        got["kernel_gap"] = gap_of(target, it["par"], cap.calls[0])
+            except Exception as e:
+                got["step"] = f"raised {type(e).__name__}: {str(e)[:80]}"
+            ctx.disagree(key, desc, out, "ok", "unsupported target accepted on re-assignment")
+            ctx.fail(key, desc, f"re-assignment rejected like construction ({out}): the posterior is outside the supported structure ({cls})",
+                     got, "an unsupported posterior is accepted when assigned to a sampler that held a valid target")
+        # -- back to a valid target: the conditional of the *current* target
+        try:
+            with Capture(cuqi) as cap, quiet():
+                smp.target = v2
+                smp.step()
+            got2 = params(cap.calls)
+        except Exception as e:
+            ctx.disagree(key + ":after", desc, "valid target accepted", repr(e)[:100], "valid target refused after a rejected one")
+            continue
+        ok2 = len(got2) == 1 and len(ref) == 1 and np.allclose(got2[0][0], ref[0][0], rtol=1e-13, atol=0) and np.allclose(got2[0][1], ref[0][1], rtol=1e-13, atol=0)
+        gap = gap_of(v2, "s", cap.calls[0]) if (cap.calls and iface == "exp" and kind in ("gauss", "gmrf")) else None
+        if not ok2 or (gap is not None and gap.get("constant") is False):
+            ctx.disagree(key + ":after", desc, ref, got2, "after the sequence the Gamma is not that of the current valid target")
+            ctx.fail(key + ":after", desc, {"fresh sampler": ref, "proportional": True}, {"drawn": got2, "kernel_gap": gap},
+                     "after valid -> unsupported -> valid the step does not draw from the current target's conditional")
+
+
+def stream_gibbs(ctx, cuqi):
+    """HybridGibbs' `_set_target` path: the Conjugate instance first serves a valid joint, then the Gibbs target is
+    replaced by a joint whose hyper-parameter conditional is unsupported; the next sweep must raise."""
+    D = cuqi.distribution
+    E = cuqi.experimental.mcmc
+    n = 3
+    b = np.array([1.0, 0.0, 2.5])
+
+    def joint(kw, mean=None):
+        x = D.Gaussian(np.zeros(n), 1.0, name="x")
+        y = D.Gaussian(mean or (lambda x: x), name="y", geometry=n, **kw)
+        s = D.Gamma(2.0, 3.0, name="s")
+        return D.JointDistribution(y, x, s)(y=b)
+
+    bad = [("cov:recip-sq", {"cov": lambda s: 1 / s ** 2}, None), ("prec:two", {"prec": lambda s: 2 * s}, None),
+           ("prec:square", {"prec": lambda s: s ** 2}, None), ("cov:ident", {"cov": lambda s: s}, None),
+           ("sqrtprec:sqrt", {"sqrtprec": lambda s: np.sqrt(s)}, None),
+           ("several-occurrences", {"cov": lambda s: 1 / s}, lambda x, s: x * s)]
+    for label, kw, mean in bad:
+        for first in ("cov", "prec"):
+            desc = {"gibbs": f"valid({first}) -> {label}"}
+            ctx.case("reassign-gibbs", desc)
+            key = f"reassign:gibbs:{label}"
+            st = np.random.get_state()
+            try:
+                np.random.seed(ctx.seed + 77)
+                with quiet():
+                    c = E.Conjugate()
+                    g = E.HybridGibbs(joint({"cov": lambda s: 1 / s} if first == "cov" else {"prec": lambda s: s}), {"x": E.MH(), "s": c})
+                    g.sample(2)
+                # (i) a fresh HybridGibbs re-using the sampler instance
+                try:
+                    with quiet():
+                        E.HybridGibbs(joint(kw, mean), {"x": E.MH(), "s": c})
+                    acc1 = True
+                except Exception:
+                    acc1 = False
+                # (ii) the running HybridGibbs gets the unsupported joint: next sweep goes through _set_target
+                with quiet():
+                    c2 = E.Conjugate()
+                    g2 = E.HybridGibbs(joint({"cov": lambda s: 1 / s} if first == "cov" else {"prec": lambda s: s}), {"x": E.MH(), "s": c2})
+                    g2.sample(1)
+                    g2.target = joint(kw, mean)()
+                got = {}
+                try:
+                    with Capture(cuqi) as cap, quiet():
+                        g2.step()
+                    acc2 = True
+                    got["gamma_draws_in_sweep"] = len(cap.calls)
+                    if cap.calls:
+                        got["kernel_gap"] = gap_of(c2.target, "s", cap.calls[0])
+                except Exception:
+                    acc2 = False
+            except Exception as e:
+                ctx.note(f"gibbs re-assignment case {label} could not be set up: {repr(e)[:100]}")
+                continue
+            finally:
+                np.random.set_state(st)
+            if acc1 or acc2:
+                got.update({"accepted_by_new_HybridGibbs_with_used_sampler": acc1, "accepted_by_sweep_after_target_change": acc2})
+                ctx.disagree(key, desc, "raise", "accepted", "unsupported conditional accepted through HybridGibbs._set_target")
+                ctx.fail(key, desc, "the Conjugate sampler rejects the unsupported conditional when HybridGibbs assigns it", got,
+                         "an unsupported posterior is accepted (and sampled) when assigned through HybridGibbs")
 
 
 def structural_oracle(ctx, cuqi, it, iface, out, smp, target, tie_key, desc):
@@ -740,7 +930,11 @@ def structural_oracle(ctx, cuqi, it, iface, out, smp, target, tie_key, desc):
     cls = it["outside"]
     fam = it["fam"]
     if iface in ("exp", "leg"):
-        if fam not in ("gauss", "gmrf", "reg"):
+        if fam in ("lmrf", "other") and it["is_post"] and it["prior_gamma"]:
+            cls = "likelihood-family-not-Gaussian/GMRF"     # exact sampler must not sample these (approximately)
+        elif fam not in ("gauss", "gmrf", "reg"):
+            return
+        if cls is None:
             return
         if iface == "leg" and cls != "non-scalar-gamma":
             return      # legacy: no structural validation at all -- judged by the proportionality oracle (listed finding)
@@ -760,11 +954,12 @@ def structural_oracle(ctx, cuqi, it, iface, out, smp, target, tie_key, desc):
             got["drawn_gamma_shape"] = c0["shape"].tolist()
             got["drawn_gamma_rate"] = (1.0 / c0["scale"]).tolist()
         got["returned_point_size"] = int(np.size(np.asarray(pt)))
-        if len(cap.calls) == 1 and len(cap.calls[0]["shape"]) == 1 and iface in ("exp", "leg") and fam in ("gauss", "gmrf") and got["prior_dim"] == 1:
+        if len(cap.calls) == 1 and len(cap.calls[0]["shape"]) == 1 and iface in ("exp", "leg") and fam in ("gauss", "gmrf", "lmrf", "other") and got["prior_dim"] == 1:
             try:
                 fit = fit_gap(target, it["par"], float(c0["shape"][0]), 1.0 / float(c0["scale"][0]))
                 if fit["finite"]:
-                    got["kernel_gap"] = {"A(log s)": fit["A"], "B(-s)": fit["B"], "resid": fit["resid"], "g-g0": fit["g"]}
+                    got["kernel_gap"] = {"A(log s)": fit["A"], "B(-s)": fit["B"], "resid": fit["resid"], "g-g0": fit["g"],
+                                         "constant": not (abs(fit["A"]) > A_TOL or abs(fit["B"]) > b_tol(fit, 1.0 / float(c0["scale"][0])) or fit["resid"] > RES_TOL * fit["mag"])}
             except Exception as e:
                 got["target_logd"] = repr(e)[:80]
     except Exception as e:
